@@ -2,20 +2,19 @@
   C18 — Whitespace stripping removes exactly the insignificant whitespace.
   Property theorems only; proofs are in Lemmas/Fws*.lean, the specification in Model/FwsSpec.lean.
 
-  Setting.  `f` is any forest with the invariant of C04 (`Forest.Inv`) in which text
-  consolidation has never been switched off (`everOff = false`, so no two text nodes are
-  adjacent).  The start node is any live node: `Fws.Occurs f t anc` says that the subtree `t`
-  sits in `f` below the chain of ancestors `anc` (nearest first); every live node has such a
-  position (`C18_position`).  `Fws.specTopRemoved anc t` is the set of handles the rule of the
-  property selects (whitespace-only text, no sibling text with other content, innermost
-  `xml:space` not `preserve`), `Fws.specTop anc t` what must be left of the subtree
-  (`specStrip`, or nothing when the start node itself is such a text node).
+  Setting.  `f` is ANY forest with the invariant of C04 (`Forest.Inv`) — text consolidation may
+  have been switched off, adjacent text nodes may exist.  The start node is any live node:
+  `Fws.Occurs f t anc` says that the subtree `t` sits in `f` below the chain of ancestors `anc`
+  (nearest first); every live node has such a position (`C18_position`).
+  `Fws.specTopRemoved anc t` is the set of handles the rule of the property selects
+  (whitespace-only text, no sibling text with other content, innermost `xml:space` not
+  `preserve`), `Fws.specTop anc t` what must be left of the subtree (`specStrip`, or nothing when
+  the start node itself is such a text node).
 
-  Boundary (finding candidate, `C18_adjacent_text_counterexample`): when consolidation HAS been
-  off and is on again, a start node that is a whitespace-only text node with text nodes on both
-  sides is removed by `remove`, which then merges its two neighbours — a node outside the
-  subtree is deleted and another one changes its value.  Full-strength statement without the
-  `everOff = false` hypothesis: `C18_frameStatement`, refuted by that witness.
+  History: before /repo 1e1d5fd the removal loop ran with text consolidation as set by the user;
+  a whitespace-only text start node between two text nodes (possible once consolidation had been
+  off) was removed and its neighbours merged.  The loop now switches consolidation off around the
+  removals (`C18_safe`), and the theorems hold without any hypothesis on `everOff`.
 -/
 import XotModel.Generated
 import XotModel.Lemmas.FwsFrame
@@ -60,7 +59,7 @@ theorem C18_position (f : Forest) (node : Nat) (t : HTree) (h : f.get? node = so
 
 /-- The loop collects, and the call removes, exactly the specification's set; the start node is
     left as `specStrip` of its subtree (or is gone when it is itself such a text node). -/
-theorem C18_exact (f : Forest) (hinv : f.Inv) (hoff : f.everOff = false)
+theorem C18_exact (f : Forest) (hinv : f.Inv)
     (t : HTree) (anc : List HTree) (pos : Occurs f t anc) :
     let g := f.removeInsignificantWhitespace t.handle
     -- the collection phase
@@ -73,23 +72,23 @@ theorem C18_exact (f : Forest) (hinv : f.Inv) (hoff : f.everOff = false)
     g.get? t.handle = specTop anc t := by
   intro g
   have nd := hinv.nodup
-  have hv := strict_of_inv hinv hoff
+  have hv := hinv.valid
   have hh := strip_handles nd hv pos
   exact ⟨toRemove_eq nd hv pos, hh, fun h hl => strip_removed_iff nd hv pos hl, strip_get? nd hv pos⟩
 
 /-- The specification's set lies inside the start node's subtree and consists of text nodes
     the rule selects at their own position. -/
-theorem C18_exact_members (f : Forest) (hinv : f.Inv) (hoff : f.everOff = false)
+theorem C18_exact_members (f : Forest) (hinv : f.Inv)
     (t : HTree) (anc : List HTree) (pos : Occurs f t anc) (n : Nat) (hn : n ∈ specTopRemoved anc t) :
     n ∈ HTree.handles t ∧
     ∃ k ancn, Occurs f k ancn ∧ k.handle = n ∧ k.value.isText = true ∧ topDeleted ancn k = true :=
-  ⟨specTopRemoved_subset anc t n hn, removed_text hinv.nodup (strict_of_inv hinv hoff) pos hn⟩
+  ⟨specTopRemoved_subset anc t n hn, removed_text hinv.nodup hinv.valid pos hn⟩
 
 /-! ### C18_frame -/
 
 /-- Every other node, value and order is untouched; other trees are unchanged; the invariant of
     C04 is kept. -/
-theorem C18_frame (f : Forest) (hinv : f.Inv) (hoff : f.everOff = false)
+theorem C18_frame (f : Forest) (hinv : f.Inv)
     (t : HTree) (anc : List HTree) (pos : Occurs f t anc) :
     let g := f.removeInsignificantWhitespace t.handle
     (g.next = f.next ∧ g.consolidation = f.consolidation ∧ g.everOff = f.everOff ∧ g.corrupt = f.corrupt) ∧
@@ -99,7 +98,7 @@ theorem C18_frame (f : Forest) (hinv : f.Inv) (hoff : f.everOff = false)
     g.Inv := by
   intro g
   have nd := hinv.nodup
-  have hv := strict_of_inv hinv hoff
+  have hv := hinv.valid
   have e : g = pruned f (fun h => (specTopRemoved anc t).contains h) := strip_eq_pruned nd hv pos
   refine ⟨by rw [e]; exact ⟨rfl, rfl, rfl, rfl⟩, fun h hR => strip_frame nd hv pos hR,
     strip_handles nd hv pos, fun r hr hnot => strip_other_roots nd hv pos hr hnot, ?_⟩
@@ -111,36 +110,38 @@ theorem C18_frame (f : Forest) (hinv : f.Inv) (hoff : f.everOff = false)
 /-! ### C18_idem -/
 
 /-- Applying it a second time changes nothing. -/
-theorem C18_idem (f : Forest) (hinv : f.Inv) (hoff : f.everOff = false)
+theorem C18_idem (f : Forest) (hinv : f.Inv)
     (t : HTree) (anc : List HTree) (pos : Occurs f t anc) :
     (f.removeInsignificantWhitespace t.handle).removeInsignificantWhitespace t.handle =
       f.removeInsignificantWhitespace t.handle :=
-  strip_idem hinv.nodup (strict_of_inv hinv hoff) pos
+  strip_idem hinv.nodup hinv.valid pos
 
 /-! ### C18_safe -/
 
-/-- The collect-then-remove loop is safe: no node is collected twice; at every iteration the
-    `remove` is a plain `remove_subtree` (no consolidation fires), and every node still to be
-    removed is the same text node it was when collected. -/
-theorem C18_safe (f : Forest) (hinv : f.Inv) (hoff : f.everOff = false)
+/-- The collect-then-remove loop is safe: no node is collected twice; the loop runs on the
+    forest with consolidation switched off (`Fws.consOff f`), after any prefix its state is `f`
+    minus that prefix, every `remove` is a plain `remove_subtree` (nothing is merged), and every
+    node still to be removed is the same text node it was when collected. -/
+theorem C18_safe (f : Forest) (hinv : f.Inv)
     (t : HTree) (anc : List HTree) (pos : Occurs f t anc) :
     let toRemove := (Forest.descendantsNormal t).filter f.isInsignificantWhitespace
     toRemove.Nodup ∧
     ∀ pre n post, toRemove = pre ++ n :: post →
-      let g := pre.foldl (fun acc x => (acc.remove x).1) f
+      let g := pre.foldl (fun acc x => (acc.remove x).1) (consOff f)
+      g = pruned (consOff f) (fun h => pre.contains h) ∧
       (g.remove n).1 = g.dropSubtree n ∧
       ∀ m ∈ n :: post, g.textOf m = f.textOf m ∧ (f.textOf m).isSome = true := by
   intro toRemove
   have nd := hinv.nodup
-  have hv := strict_of_inv hinv hoff
+  have hv := hinv.valid
   have e : toRemove = specTopRemoved anc t := toRemove_eq nd hv pos
   refine ⟨e ▸ removed_nodup nd hv pos, ?_⟩
   intro pre n post hs
   exact strip_safe nd hv pos (e ▸ hs)
 
-/-- Why no consolidation can fire: without adjacent text nodes, the previous sibling of a text
-    node (in particular of a collected one) is not a text node, so between two collected
-    siblings there is always a non-text sibling. -/
+/-- While consolidation has never been off, no consolidation could fire even without the
+    switch: the previous sibling of a text node (in particular of a collected one) is not a
+    text node. -/
 theorem C18_safe_separated (f : Forest) (hinv : f.Inv) (hoff : f.everOff = false)
     (k : HTree) (anc : List HTree) (pos : Occurs f k anc) (hk : k.value.isText = true)
     (p : Nat) (hp : f.prevSibling k.handle = some p) : f.textOf p = none :=
@@ -148,7 +149,7 @@ theorem C18_safe_separated (f : Forest) (hinv : f.Inv) (hoff : f.everOff = false
 
 /-! ### Non-vacuity -/
 
-example : exampleForest.Inv ∧ exampleForest.everOff = false := ⟨(Forest.inv_iff _).1 (by decide), rfl⟩
+example : exampleForest.Inv := (Forest.inv_iff _).1 (by decide)
 
 /-- The start node `<c>` of `Fws.exampleForest` with its position. -/
 example : ∃ t anc, Occurs exampleForest t anc ∧ t.handle = 7 ∧ specTopRemoved anc t = [8, 10] := by
@@ -159,30 +160,19 @@ example : ∃ t anc, Occurs exampleForest t anc ∧ t.handle = 7 ∧ specTopRemo
     sibling `x`, the one in `<b>` because of `preserve`). -/
 example : (exampleForest.removeInsignificantWhitespace 0).allHandles = [0, 1, 2, 3, 4, 5, 6, 7, 9] := by decide
 
-/-! ### The boundary: consolidation has been off -/
+/-! ### Consolidation has been off: adjacent text nodes -/
 
-/-- Full-strength frame statement without `everOff = false`. -/
-def C18_frameStatement : Prop :=
-  ∀ (f : Forest), f.Inv → ∀ (t : HTree) (anc : List HTree), Occurs f t anc →
-    ∀ h, h ∉ specTopRemoved anc t →
-      (f.removeInsignificantWhitespace t.handle).value? h = f.value? h
+/-- `Fws.adjacentWitness`: three adjacent whitespace-only text nodes (consolidation was off while
+    they were added, is on again). The hypotheses hold with `everOff = true` … -/
+example : adjacentWitness.Inv ∧ adjacentWitness.everOff = true ∧ adjacentWitness.consolidation = true :=
+  ⟨(Forest.inv_iff _).1 (by decide), rfl, rfl⟩
 
-/-- Stripping at the middle text node removes it (as specified) but `remove` then consolidates
-    its neighbours: node 3, outside the start node's subtree, is deleted and node 1 changes value. -/
-theorem C18_adjacent_text_counterexample :
-    adjacentWitness.inv = true ∧
-    (adjacentWitness.removeInsignificantWhitespace 2).isLive 3 = false ∧
-    (adjacentWitness.removeInsignificantWhitespace 2).value? 1 = some (.text [' ', '\t']) ∧
-    adjacentWitness.value? 1 = some (.text [' ']) := by decide
-
-/-- Hence the full-strength statement is false. -/
-theorem C18_frameStatement_false : ¬ C18_frameStatement := by
-  intro h
-  have pos : Occurs adjacentWitness (.node 2 (.text ['\n']) [])
-      [.node 0 (.element 2) [.node 1 (.text [' ']) [], .node 2 (.text ['\n']) [], .node 3 (.text ['\t']) []]] :=
-    .kid (.root (List.Mem.head _)) (List.Mem.tail _ (List.Mem.head _))
-  have := h adjacentWitness ((Forest.inv_iff _).1 (by decide)) _ _ pos 1 (by decide)
-  revert this
-  decide
+/-- … and stripping at the middle one removes it alone (before 1e1d5fd the two neighbours were
+    merged: node 3 deleted, node 1 changed). -/
+example :
+    (adjacentWitness.removeInsignificantWhitespace 2).allHandles = [0, 1, 3] ∧
+    (adjacentWitness.removeInsignificantWhitespace 2).value? 1 = some (.text [' ']) ∧
+    (adjacentWitness.removeInsignificantWhitespace 2).value? 3 = some (.text ['\t']) ∧
+    (adjacentWitness.removeInsignificantWhitespace 2).consolidation = true := by decide
 
 end XotModel.Props
